@@ -261,9 +261,27 @@ class CliCampaign:
             list(ex.map(one, range(len(self.items))))
         din = os.path.join(self.d, "describe_in.json")
         dout = os.path.join(self.d, "describe_out.ndjson")
-        with open(din, "w") as fh:
-            json.dump([{"text": it["text"], "order": it["order"]} for it in self.items], fh)
-        run_harness(["describe", din, dout])
+        prog = os.path.join(self.d, "describe_progress.txt")
+        no_api = set()
+        for attempt in range(12):
+            with open(din, "w") as fh:
+                json.dump([{"text": it["text"], "order": it["order"], "no_api": (i in no_api) or not it["api"]}
+                           for i, it in enumerate(self.items)], fh)
+            try:
+                run_harness(["describe", din, dout, prog], timeout=240)
+                break
+            except subprocess.TimeoutExpired:
+                # the API route (NamedSymbol ordering) of one item does not terminate: data, not a tool failure
+                i = int(open(prog).read().strip())
+                it = self.items[i]
+                if i in no_api:
+                    raise ToolError("describe hangs on item %d even without the API route: %r" % (i, it["text"]))
+                no_api.add(i)
+                self.run.violation("cli:%s:API route does not terminate" % self.label,
+                                   "ParsedFormula::new with a NamedSymbol ordering / eval does not terminate for %r, ordering %r" % (it["text"], it["order"]),
+                                   {"mode": "cli-run", "item": {"text": it["text"], "order": it["order"], "argv": ["-t"], "filter": "Any", "retain": "Any", "model": False}})
+        else:
+            raise ToolError("describe: too many hanging items")
         descs = [json.loads(l) for l in open(dout)]
         for it, dsc in zip(self.items, descs):
             it["desc"] = dsc
@@ -329,7 +347,9 @@ class CliCampaign:
                     bad = "unreadable output: %s" % ex
             if it["api"] and dsc.get("parse_ok"):
                 api = dsc.get("api", {})
-                if "panic" in api:
+                if api.get("skipped"):
+                    pass
+                elif "panic" in api:
                     bad = bad or ("API route panicked: %s" % api["panic"])
                 else:
                     ev["has_api"] = True
